@@ -1425,7 +1425,13 @@ func genC07(r *vf.Rand, entry string) c07Case {
 		o := jO()
 		for j, n := 0, r.Intn(8); j < n; j++ {
 			name := vf.Pick(r, c07ClaimNames)
+			if r.Bool() {
+				name = vf.Pick(r, c07TypeNames) // the named-type grid (c07types.go) under generated JSON
+			}
 			o.set(name, genJSON(r, 3))
+		}
+		if r.Intn(6) == 0 {
+			cs.Aux = "float64"
 		}
 		switch r.Intn(10) {
 		case 0:
@@ -1556,6 +1562,17 @@ func runC07(c *vf.Ctx) {
 		}
 	}
 	const workers = 16
+	// the named-type grid of the custom-claims walk: every catalogue type x every JSON shape (c07types.go);
+	// deterministic, and first, so that a failure is reported with its one-claim input
+	var grid []c07Case
+	c07TypeGrid(func(cs c07Case) { grid = append(grid, cs) })
+	c.Parallel(workers, false, func(w int, _ *vf.Rand, _ *vf.Driver) {
+		for i := w; i < len(grid); i += workers {
+			execC07(c, grid[i])
+		}
+	})
+	c.Set("custom_type_grid", map[string]int{"named_types": len(c07Catalogue), "claim_names": len(c07TypeNames),
+		"shapes": len(c07Shapes), "cases": len(grid)})
 	c.Parallel(workers, false, func(w int, r *vf.Rand, _ *vf.Driver) {
 		n := budget / workers
 		for i := 0; i < n; i++ {
